@@ -3,7 +3,7 @@
    The theorems are about the model Model/CIDict.v of pybtex/utils.py:80-379 for an ABSTRACT key type K
    with a boolean equality `keqb` that decides equality and a case-lowering `lower`; where the proof
    needs it, `lower` is assumed idempotent.  The reference map is Spec/CIMap.v, the relating
-   vocabulary (abs, lockstep, reachable, cls_ok, ops_ok) Spec/CIRel.v.  `str_instance_eq_ok` / `str_instance_lower_idem` show that the
+   vocabulary (abs, lockstep, reachable, cls_ok) Spec/CIRel.v.  `str_instance_eq_ok` / `str_instance_lower_idem` show that the
    extracted instance (Python str with the ASCII case mapping) meets both hypotheses. *)
 From Pybtex Require Import Base.Prelude Base.PyChar Base.PyStr Model.CIDict Model.CIDictStr
   Spec.CIMap Spec.CIRel Proofs.CIDict Proofs.CIDictFindings Proofs.CISet.
@@ -51,39 +51,19 @@ Theorem init_refines : forall (K V : Type) (keqb : K -> K -> bool) (lower : K ->
 Proof. exact Proofs.CIDict.init_refines. Qed.
 Print Assumptions init_refines.
 
-(* The defaulting variant (CaseInsensitiveDefaultDict with a factory returning d0) refines the reference map
-   "with default d0" (c[k] and get(k, d) of an absent key yield d0 and do not insert) on every history --
-   lower(), pop with and without default, get, update, clear ... included (after fix 53376a7: findings C13-F1,
-   C13-F2) -- that does not call setdefault on a then-absent key (ops_ok).
-   Full statement (refuted, finding C13-F4): the same for every history. *)
-Theorem default_run_refines_partial : forall (K V : Type) (keqb : K -> K -> bool) (lower : K -> K),
+(* The defaulting variant (CaseInsensitiveDefaultDict with a factory returning d0): EVERY history -- lower(), pop
+   with and without default, get, setdefault, update, clear ... -- refines the reference map "with default d0"
+   (c[k] and get(k, d) of an absent key yield d0 and do not insert; everything else as the plain map): all
+   results and all observations, by induction over the operation list.
+   (Was refuted before the fix commits 53376a7 and 849b0be: findings C13-F1, C13-F2, C13-F4.) *)
+Theorem default_run_refines : forall (K V : Type) (keqb : K -> K -> bool) (lower : K -> K),
   (forall a b : K, reflect (a = b) (keqb a b)) ->
   (forall k : K, lower (lower k) = lower k) ->
   forall (d0 : V) (probes : list K) (ops : list (op K V)),
-  ops_ok K V keqb lower (Some d0) [] ops = true ->
   run K V keqb lower probes (default_init K V (FacVal d0)) ops =
   spec_run K V keqb lower (Some d0) probes [] ops.
-Proof. exact Proofs.CIDict.default_run_refines_partial. Qed.
-Print Assumptions default_run_refines_partial.
-(* C13-F4: setdefault(k, x) of an absent key on the defaulting variant returns the factory's default and does
-   not insert; the reference map inserts x and returns it *)
-Theorem default_setdefault_refuted :
-  let c := s_init ClsDefault 0 [] in
-  s_step c (OSetdefault (s2l "k") 5%Z) = (c, EOk (RVal 0%Z)) /\
-  spec_step str Z str_eqb lower (Some 0%Z) (abs str Z c) (OSetdefault (s2l "k") 5%Z) =
-    ([(s2l "k", (s2l "k", 5%Z))], EOk (RVal 5%Z)).
-Proof. exact default_setdefault_not_inserting. Qed.
-Print Assumptions default_setdefault_refuted.
-(* The defaulting variant on EVERY history: it is the reference map with default d0 except that setdefault(k, x)
-   of an absent key yields d0 without inserting (Spec/CIMap.dspec_step) -- all results and all observations,
-   by induction over the operation list. *)
-Theorem default_run_refines_quirks : forall (K V : Type) (keqb : K -> K -> bool) (lower : K -> K),
-  (forall a b : K, reflect (a = b) (keqb a b)) ->
-  (forall k : K, lower (lower k) = lower k) ->
-  forall (d0 : V) (probes : list K) (ops : list (op K V)),
-  run K V keqb lower probes (default_init K V (FacVal d0)) ops = dspec_run K V keqb lower d0 probes [] ops.
-Proof. exact Proofs.CIDict.default_run_refines_quirks. Qed.
-Print Assumptions default_run_refines_quirks.
+Proof. exact Proofs.CIDict.default_run_refines. Qed.
+Print Assumptions default_run_refines.
 
 (* every reachable container (any class, any history) has a consistent class / default pairing: the
    hypothesis `cls_ok c dflt` of the corollaries below is satisfiable in every reachable state *)
@@ -173,16 +153,24 @@ Theorem default_no_insert : forall (K V : Type) (keqb : K -> K -> bool) (lower :
   step K V keqb lower c (OGet k) = (c, EOk (RVal d0)).
 Proof. exact default_no_insert_r. Qed.
 Print Assumptions default_no_insert.
-(* ... and so do its get(k, d) and setdefault(k, x): both yield the factory's default, neither inserts
-   (the reading of "yields its default for absent keys without inserting them" that the check accepts) *)
-Theorem default_get_setdefault_no_insert : forall (K V : Type) (keqb : K -> K -> bool) (lower : K -> K),
+(* ... and so does its get(k, d): it yields the factory's default (not d) and does not insert
+   ("yields its default for absent keys without inserting them") *)
+Theorem default_get_no_insert : forall (K V : Type) (keqb : K -> K -> bool) (lower : K -> K),
   (forall a b : K, reflect (a = b) (keqb a b)) ->
   forall (c : cid K V) (k : K) (d : option V) (d0 : V),
   reachable K V keqb lower c -> cls_ok K V c (Some d0) -> ci_contains K V keqb lower c k = false ->
-  step K V keqb lower c (OGetD k d) = (c, EOk (RVal d0)) /\
-  (forall x : V, step K V keqb lower c (OSetdefault k x) = (c, EOk (RVal d0))).
-Proof. exact default_get_setdefault_no_insert_r. Qed.
-Print Assumptions default_get_setdefault_no_insert.
+  step K V keqb lower c (OGetD k d) = (c, EOk (RVal d0)).
+Proof. exact default_get_no_insert_r. Qed.
+Print Assumptions default_get_no_insert.
+(* ... while setdefault(k, x) of an absent key inserts x and returns it, in all three classes *)
+Theorem setdefault_absent_inserts : forall (K V : Type) (keqb : K -> K -> bool) (lower : K -> K),
+  (forall a b : K, reflect (a = b) (keqb a b)) ->
+  (forall k : K, lower (lower k) = lower k) ->
+  forall (c : cid K V) (k : K) (x : V) (dflt : option V),
+  reachable K V keqb lower c -> cls_ok K V c dflt -> ci_contains K V keqb lower c k = false ->
+  step K V keqb lower c (OSetdefault k x) = (ci_setitem K V keqb lower c k x, EOk (RVal x)).
+Proof. exact setdefault_absent_inserts_r. Qed.
+Print Assumptions setdefault_absent_inserts.
 
 (* ---- CaseInsensitiveSet ---- *)
 
@@ -247,15 +235,14 @@ Example ex_state :
   ci_items str Z str_eqb lower ex_c = EOk [(s2l "UNO", 7%Z); (s2l "dos", 5%Z); (s2l "Tres", 3%Z)] /\
   ci_contains str Z str_eqb lower ex_c (s2l "tRES") = true /\ ci_contains str Z str_eqb lower ex_c (s2l "x") = false.
 Proof. vm_compute. auto. Qed.
-(* a reachable defaulting container, a history inside ops_ok, an absent key *)
-Definition ex_dops : list (op str Z) := [OGet (s2l "a"); OSet (s2l "a") 1%Z; OGet (s2l "A"); OSet (s2l "B") 10%Z; OPop (s2l "A") None; OGetD (s2l "zz") (Some 4%Z); OPop (s2l "zz") (Some 1%Z); OLower; OSetdefault (s2l "b") 2%Z].
+(* a reachable defaulting container and an absent key *)
+Definition ex_dops : list (op str Z) := [OGet (s2l "a"); OSet (s2l "a") 1%Z; OGet (s2l "A"); OSet (s2l "B") 10%Z; OPop (s2l "A") None; OGetD (s2l "zz") (Some 4%Z); OPop (s2l "zz") (Some 1%Z); OLower; OSetdefault (s2l "b") 2%Z; OSetdefault (s2l "q") 3%Z; ODel (s2l "Q")].
 Example ex_default :
-  ops_ok str Z str_eqb lower (Some 0%Z) [] ex_dops = true /\
   let c := run_state str Z str_eqb lower (default_init str Z (FacVal 0%Z)) ex_dops in
   cls_ok str Z c (Some 0%Z) /\ ci_contains str Z str_eqb lower c (s2l "a") = false /\
   ci_items str Z str_eqb lower c = EOk [(s2l "b", 10%Z)].
 Proof. vm_compute. auto. Qed.
-(* the inputs of the repaired findings C13-F1, C13-F2, C13-F3 now behave like the reference map *)
+(* the inputs of the repaired findings C13-F1 .. C13-F4 now behave like the reference map *)
 Example ex_f1_regression :
   let c := run_state str Z str_eqb lower (s_init ClsDefault 0 []) [OSet (s2l "A") 1%Z; OLower] in
   ci_items str Z str_eqb lower c = EOk [(s2l "a", 1%Z)] /\ ci_getitem str Z str_eqb lower c (s2l "b") = EOk 0%Z.
@@ -263,6 +250,12 @@ Proof. exact f1_regression. Qed.
 Example ex_f2_regression :
   s_step (s_init ClsDefault 0 []) (OPop (s2l "x") (Some 9%Z)) = (s_init ClsDefault 0 [], EOk (RVal 9%Z)).
 Proof. exact f2_regression. Qed.
+Example ex_f4_regression :
+  let c := s_init ClsDefault 0 [] in
+  s_step c (OSetdefault (s2l "k") 5%Z) = (ci_setitem str Z str_eqb lower c (s2l "k") 5%Z, EOk (RVal 5%Z)) /\
+  spec_step str Z str_eqb lower (Some 0%Z) (abs str Z c) (OSetdefault (s2l "k") 5%Z) =
+    ([(s2l "k", (s2l "k", 5%Z))], EOk (RVal 5%Z)).
+Proof. exact f4_regression. Qed.
 Example ex_f3_regression :
   abs str Z (ci_init str Z str_eqb lower ClsPlain [(s2l "a", 1%Z); (s2l "A", 2%Z); (s2l "a", 3%Z)]) = [(s2l "a", (s2l "a", 3%Z))].
 Proof. exact f3_regression. Qed.
